@@ -496,6 +496,7 @@ def run(tier='quick'):
     from . import c07, c11
     c07.cycle_guard(prog, cg, eff, chk, U9)
     c11.forest_encodings(prog, cg, eff, chk, U9, only=('sub', 'move'), paths=False)
+    c07.moved_subtree_closure(prog, cg, eff, chk, U9)
     # 2.x: the closure the guard (and the isPersist triggers) read is defined by the recursive views;
     # every version's copy must be the definition its siblings / the reference dump carry
     from . import c08
